@@ -27,7 +27,7 @@ class PathSummary:
         self.ret = None
         self.exc = None
         self.nodes = []
-        self.calls = []      # (cfg node id, canonical call term) of expression statements, in order
+        self.calls = []      # (cfg node id, canonical call term, facts known at that point) of expression statements, in order
         self.looped = False
         self.returned = False
 
@@ -115,7 +115,7 @@ def summarize(fi, max_paths=400, unroll=1, follow_exc=False):
                     op = type(st.op).__name__
                     _assign(st.target, S.canon(S.xor(cur, r) if op == "BitXor" else ("op", op, cur, r)), env)
                 elif isinstance(st, ast.Expr) and not (isinstance(st.value, ast.Constant)):
-                    ps.calls.append((nid, _expr(st.value, env)))
+                    ps.calls.append((nid, _expr(st.value, env), ps.facts))
                 elif isinstance(st, ast.Assert):
                     ghosts = tuple(p for p in params if p not in rebound)
                     r = refine_bool(st.test, True, ps.facts, atom_for(ghosts), join)
@@ -136,7 +136,7 @@ def summarize(fi, max_paths=400, unroll=1, follow_exc=False):
             elif node.kind == "with":
                 for item in st.items:
                     v = _expr(item.context_expr, env)
-                    ps.calls.append((nid, v))
+                    ps.calls.append((nid, v, ps.facts))
                     if item.optional_vars is not None:
                         _assign(item.optional_vars, ("ctx", v), env)
         except S.NotStraight:
@@ -175,8 +175,9 @@ def summarize(fi, max_paths=400, unroll=1, follow_exc=False):
 def _assign(t, v, env):
     if isinstance(t, ast.Name):
         env[t.id] = v
-    elif isinstance(t, ast.Attribute) and isinstance(t.value, ast.Name) and t.value.id == "self":
-        env["self." + t.attr] = v
+    elif isinstance(t, ast.Attribute) and isinstance(t.value, ast.Name):
+        # self.attr, and attributes set on a local object (b.length = ..)
+        env[t.value.id + "." + t.attr] = v
     elif isinstance(t, (ast.Tuple, ast.List)):
         if v[0] == "tuple" and len(v[1]) == len(t.elts):
             for a, b in zip(t.elts, v[1]):
